@@ -67,7 +67,36 @@ type c08Prog struct {
 	// SymbolIDs preloads Params.SymbolIDs (what Params.LoadSymbolIDs does from a file)
 	SymbolIDs map[string]int `json:"symbol_ids,omitempty"`
 	Symbols   []string       `json:"symbols,omitempty"` // intern family: the symbols in program order
+	Opts      c08Opts        `json:"opts,omitempty"`
 }
+
+// c08Opts: the doors of configuration (utils.Params fields, output writers, entry point).
+type c08Opts struct {
+	Prune         bool    `json:"prune,omitempty"`   // Params.OptPruneGates (apps/garbled -O 1, the default there)
+	Verbose       bool    `json:"verbose,omitempty"` // print-only options: must not change any output
+	Diagnostics   bool    `json:"diag,omitempty"`
+	ErrLoc        bool    `json:"errloc,omitempty"`
+	WarnNone      bool    `json:"wnone,omitempty"`
+	NoCirc        bool    `json:"nocirc,omitempty"` // Params.NoCircCompile (-ssa without -circ)
+	MultThreshold int     `json:"mult,omitempty"`   // Params.CircMultArrayTreshold
+	MaxLoopUnroll int     `json:"unroll,omitempty"`
+	AllOuts       bool    `json:"outs,omitempty"`   // CircOut (+CircFormat), CircDotOut, CircSvgOut, SSADotOut, MarshalFormat, AssignLevels
+	Format        string  `json:"format,omitempty"` // CircFormat: mpclc | bristol
+	ViaStream     bool    `json:"stream,omitempty"` // Compiler.Stream with BenchmarkCompile (front half of the streaming door)
+	InputSizes    [][]int `json:"sizes,omitempty"`
+	SidsFile      string  `json:"sids,omitempty"` // contents of a symbol-id file: Params.LoadSymbolIDs / SaveSymbolIDs
+}
+
+func (o c08Opts) hasPrintOnly() bool { return o.Verbose || o.Diagnostics || o.ErrLoc || o.WarnNone }
+
+func (o c08Opts) printOnlyCleared() c08Opts { // the options with the print-only ones cleared
+	o.Verbose, o.Diagnostics, o.ErrLoc, o.WarnNone = false, false, false, false
+	return o
+}
+
+type c08Outs struct{ circ, dot, svg, ssadot *c08Writer }
+
+var c08Extra sync.Map // *utils.Params -> *c08Outs
 
 type c08Obs struct {
 	Circ    string         `json:"circ"`
@@ -77,12 +106,15 @@ type c08Obs struct {
 	SSAText string         `json:"ssa_text,omitempty"` // only in the output of the reuse child
 	Eval    string         `json:"eval,omitempty"`     // only in the output of the reuse child
 	Mutated []string       `json:"mutated,omitempty"`  // exported Params fields changed by this compilation
+	Extra   string         `json:"extra,omitempty"`    // hashes of the further outputs (Opts.AllOuts, SidsFile)
 	SymTab  map[string]int `json:"symtab,omitempty"`   // Params.SymbolIDs after the compilation (intern family)
 	ssaText string
 	circ    *circuit.Circuit
 }
 
-func (o c08Obs) key() string { return o.Circ + "/" + o.Bristol + "/" + o.SSA + "/" + o.Err }
+func (o c08Obs) key() string {
+	return o.Circ + "/" + o.Bristol + "/" + o.SSA + "/" + o.Err + "/" + o.Extra
+}
 
 type c08Writer struct{ b *bytes.Buffer }
 
@@ -120,6 +152,39 @@ func c08Params(p *c08Prog, w *c08Writer) *utils.Params {
 	}
 	for k, v := range p.SymbolIDs {
 		params.SymbolIDs[k] = v
+	}
+	o := p.Opts
+	params.OptPruneGates = o.Prune
+	params.Verbose, params.Diagnostics, params.MPCLCErrorLoc = o.Verbose, o.Diagnostics, o.ErrLoc
+	if o.WarnNone {
+		params.Warn.DisableAll()
+	}
+	params.NoCircCompile = o.NoCirc
+	if o.MultThreshold > 0 {
+		params.CircMultArrayTreshold = o.MultThreshold
+	}
+	if o.MaxLoopUnroll > 0 {
+		params.MaxLoopUnroll = o.MaxLoopUnroll
+	}
+	if o.ViaStream {
+		params.BenchmarkCompile = true
+	}
+	if o.AllOuts {
+		x := &c08Outs{&c08Writer{b: new(bytes.Buffer)}, &c08Writer{b: new(bytes.Buffer)}, &c08Writer{b: new(bytes.Buffer)}, &c08Writer{b: new(bytes.Buffer)}}
+		params.CircOut, params.CircDotOut, params.CircSvgOut, params.SSADotOut = x.circ, x.dot, x.svg, x.ssadot
+		params.CircFormat = o.Format
+		if params.CircFormat == "" {
+			params.CircFormat = "mpclc"
+		}
+		c08Extra.Store(params, x)
+	}
+	if o.SidsFile != "" {
+		if f, err := os.CreateTemp("", "c08sids-*.mpcl"); err == nil {
+			f.WriteString(o.SidsFile)
+			f.Close()
+			params.LoadSymbolIDs(f.Name())
+			os.Remove(f.Name())
+		}
 	}
 	return params
 }
@@ -161,11 +226,57 @@ func c08CompileWith(cc *compiler.Compiler, params *utils.Params, w *c08Writer, p
 		}()
 		var err error
 		var circ *circuit.Circuit
-		if p.File != "" {
-			circ, _, err = cc.CompileFile(p.File, nil)
-		} else {
-			circ, _, err = cc.Compile(p.Src, nil)
+		var outs *c08Outs
+		if x, ok := c08Extra.Load(params); ok {
+			outs = x.(*c08Outs)
+			for _, wr := range []*c08Writer{outs.circ, outs.dot, outs.svg, outs.ssadot} {
+				wr.b = new(bytes.Buffer)
+			}
 		}
+		sizes := p.Opts.InputSizes
+		switch {
+		case p.Opts.ViaStream && p.File != "":
+			_, _, err = cc.StreamFile(nil, nil, p.File, nil, sizes)
+		case p.Opts.ViaStream:
+			_, _, err = cc.Stream(nil, nil, "{data}", strings.NewReader(p.Src), nil, sizes)
+		case p.File != "":
+			circ, _, err = cc.CompileFile(p.File, sizes)
+		default:
+			circ, _, err = cc.Compile(p.Src, sizes)
+		}
+		defer func() {
+			// further outputs: the writers of Params, MarshalFormat, Marshal twice, AssignLevels
+			// (apps/garbled loadCircuit), the saved symbol-id file
+			h := sha256.New()
+			if outs != nil && err == nil {
+				for _, wr := range []*c08Writer{outs.circ, outs.dot, outs.svg, outs.ssadot} {
+					fmt.Fprintf(h, "%d:", wr.b.Len())
+					h.Write(wr.b.Bytes())
+				}
+				if circ != nil {
+					var m1, m2, m3 bytes.Buffer
+					circ.MarshalFormat(&m1, params.CircFormat)
+					circ.Marshal(&m2)
+					if !bytes.Equal(m1.Bytes(), outs.circ.b.Bytes()) {
+						obs.Err += "CircOut differs from MarshalFormat; "
+					}
+					circ.AssignLevels(params.Target)
+					circ.Marshal(&m3)
+					h.Write(m2.Bytes())
+					h.Write(m3.Bytes())
+				}
+				obs.Extra = fmt.Sprintf("%x", h.Sum(nil)[:12])
+			}
+			if p.Opts.SidsFile != "" && params != nil {
+				if f, e := os.CreateTemp("", "c08sids-out-*.mpcl"); e == nil {
+					f.Close()
+					params.SaveSymbolIDs("main", f.Name())
+					b, _ := os.ReadFile(f.Name())
+					os.Remove(f.Name())
+					obs.Extra += "/sids:" + c08Hash(b)[:12]
+				}
+			}
+		}()
 		if err == nil && circ != nil {
 			var mb, bb bytes.Buffer
 			if e2 := circ.Marshal(&mb); e2 != nil {
@@ -726,7 +837,18 @@ func (c *c08State) genProgram(rng *RNG, idx int) (*c08Prog, error) {
 			}
 		}
 		sb.WriteString(fmt.Sprintf("\nfunc F%d(a uint8) uint8 {\n\treturn a + %d\n}\n", i, rng.Range(1, 100)))
-		pd := filepath.Join(dir, names[i])
+		// the packages are spread over two library directories (Params.PkgPath with several
+		// entries); the second root also holds a decoy copy of some packages of the first root
+		// (the first directory that has the package wins)
+		root := dir
+		if i%2 == 1 {
+			root = dir + "-b"
+		} else if i%4 == 0 {
+			decoy := filepath.Join(dir+"-b", names[i])
+			os.MkdirAll(decoy, 0o755)
+			os.WriteFile(filepath.Join(decoy, names[i]+".mpcl"), []byte("// -*- go -*-\n\npackage "+names[i]+"\n\nvar Decoy = []byte{9, 9, 9}\n\nfunc F"+fmt.Sprint(i)+"(a uint8) uint8 {\n\treturn a + 200\n}\n"), 0o644)
+		}
+		pd := filepath.Join(root, names[i])
 		if err := os.MkdirAll(pd, 0o755); err != nil {
 			return nil, err
 		}
@@ -755,7 +877,7 @@ func (c *c08State) genProgram(rng *RNG, idx int) (*c08Prog, error) {
 		}
 	}
 	sb.WriteString(")\n\nfunc main(a, b uint8) uint8 {\n\tr := a + b\n" + uses + "\treturn r\n}\n")
-	return &c08Prog{Name: fmt.Sprintf("gen%03d-%s-%d", idx, shape, npk), Src: sb.String(), PkgPath: []string{dir}, Kind: "generated", GMW: idx%6 == 5}, nil
+	return &c08Prog{Name: fmt.Sprintf("gen%03d-%s-%d", idx, shape, npk), Src: sb.String(), PkgPath: []string{dir, dir + "-b"}, Kind: "generated", GMW: idx%6 == 5}, nil
 }
 
 // genClashProgram: a package tree in which two DIFFERENT import paths share their base name (alias).
@@ -980,7 +1102,7 @@ var c08DirectedWidthPrograms = []string{
 
 func c08KindRank(kind string) int {
 	switch kind {
-	case "const-widths", "intern":
+	case "const-widths", "intern", "constructs", "options", "options-file", "intern-file", "intern-file-file":
 		return 0
 	case "alias-clash":
 		return 1
@@ -1101,6 +1223,17 @@ func c08ParamsSnapshot(p *utils.Params) map[string]string {
 	return out
 }
 
+// directed language constructs whose code generation goes through sets and alias bookkeeping:
+// computed values stored into elements of local arrays / fields of local structs / concatenations
+// that are consumed inside the program (several releasable bases at one program point)
+var c08ConstructPrograms = []string{
+	"package main\n\nfunc main(a, b uint8) uint8 {\n\tvar arr [4]uint8\n\tarr[0] = a + b\n\tarr[1] = a ^ b\n\tarr[2] = a & b\n\tarr[3] = arr[0] | arr[1]\n\treturn arr[0] + arr[2] + arr[3]\n}\n",
+	"package main\n\ntype S struct {\n\tx uint8\n\ty uint16\n}\n\nfunc main(a, b uint8) uint8 {\n\tvar s S\n\ts.x = a + b\n\ts.y = uint16(a) + uint16(b)\n\treturn s.x + uint8(s.y)\n}\n",
+	"package main\n\nfunc sum(v [3]uint16) uint16 {\n\treturn v[0] + v[1] + v[2]\n}\n\nfunc main(a, b uint16) uint16 {\n\tvar v [3]uint16\n\tv[0] = a * b\n\tv[1] = a - b\n\tv[2] = a >> 3\n\treturn sum(v) + v[1]\n}\n",
+	"package main\n\nfunc main(a, b uint8) uint8 {\n\tbuf := make([]byte, 4)\n\tbuf[0] = a\n\tbuf[1] = b\n\tbuf[2] = a + b\n\tc := buf[1:3]\n\treturn c[0] ^ c[1] ^ buf[0]\n}\n",
+	"package main\n\ntype P struct {\n\tv [2]uint8\n\tn uint8\n}\n\nfunc main(a, b uint8) uint8 {\n\tvar p P\n\tp.v[0] = a + 1\n\tp.v[1] = b + 2\n\tp.n = p.v[0] ^ p.v[1]\n\tq := &p\n\tq.n = q.n + a\n\treturn p.n + p.v[1]\n}\n",
+}
+
 // ---------------------------------------------------------------- the intern() builtin
 
 // intern(sym) returns the id of the symbol; a new symbol gets the next id and is stored in
@@ -1175,6 +1308,10 @@ func c08HistoryPool(thorough bool) []c08HistProg {
 	add("mod-uint16", "uint16", "%", false)
 	add("add-uint16", "uint16", "+", false)
 	add("add-uint32", "uint32", "+", false)
+	// abort-then-retry: programs that fail to compile (type error, parse error, missing import) as A
+	out = append(out, c08HistProg{"err-type", &c08Prog{Name: "hist:err-type", Kind: "history", Src: "package main\n\nfunc main(a, b uint16) uint16 {\n\tc := a * b\n\treturn c + true\n}\n"}})
+	out = append(out, c08HistProg{"err-parse", &c08Prog{Name: "hist:err-parse", Kind: "history", Src: "package main\n\nfunc main(a, b uint16) uint16 {\n\treturn a * (b\n}\n"}})
+	out = append(out, c08HistProg{"err-import", &c08Prog{Name: "hist:err-import", Kind: "history", Src: "package main\n\nimport (\n\t\"encoding/hex\"\n\t\"no/such/pkg\"\n)\n\nfunc main(a, b uint16) uint16 {\n\treturn a * b\n}\n"}})
 	add("mul-uint16", "uint16", "*", true)
 	add("mul-uint32", "uint32", "*", true)
 	add("div-uint16", "uint16", "/", true)
@@ -1284,6 +1421,67 @@ func c08RunHistories(c *Ctx) {
 			map[string]interface{}{"program": mutated[f], "field": f})
 	}
 	c.Hist(fmt.Sprintf("history-pool:%d", len(pool)))
+}
+
+// ---------------------------------------------------------------- doors: options, output writers, entry points
+
+// Every base program is compiled under each option set through the usual pipeline (k fresh
+// compilations, reused Compiler, child processes).  Additional oracles over the groups: the
+// print-only options (Verbose, Diagnostics, MPCLCErrorLoc, Warn) must not change any output; the
+// listing written through Compiler.Stream/StreamFile (BenchmarkCompile) must be the listing of
+// Compile/CompileFile.
+func c08OptionPrograms() []*c08Prog {
+	bases := []*c08Prog{
+		{Name: "opt:mul16", Src: "package main\n\nfunc main(a, b uint16) uint16 {\n\treturn a * b + 3\n}\n"},
+		{Name: "opt:div-if", Src: "package main\n\nfunc main(a, b int32) int32 {\n\tif a > b {\n\t\treturn a / 7\n\t}\n\treturn b - a\n}\n"},
+		{Name: "opt:loop", Src: "package main\n\nfunc main(a, b uint8) uint8 {\n\tvar r uint8\n\tfor i := 0; i < 6; i++ {\n\t\tr = r + (a >> i) & b\n\t}\n\treturn r\n}\n"},
+		{Name: "opt:imports", Src: "package main\n\nimport (\n\t\"bytes\"\n\t\"encoding/hex\"\n)\n\nfunc main(a, b uint8) uint8 {\n\treturn a + b + uint8(hex.Digits[1])\n}\n"},
+		{Name: "opt:sized-args", Src: "package main\n\nfunc main(a, b []byte) byte {\n\treturn a[0] ^ b[len(b)-1]\n}\n", Opts: c08Opts{InputSizes: [][]int{{24}, {40}}}},
+		{Name: "opt:intern-sids", Src: "package main\n\nfunc main(a, b int32) int32 {\n\treturn a + intern(beta) + intern(kappa) + intern(omega) + b\n}\n",
+			Opts: c08Opts{SidsFile: "// -*- go -*-\n\npackage main\n\nconst (\n\tomega = 0\n\tsigma = 1\n\tbeta  = 4\n)\n"}, Kind: "intern-file"},
+	}
+	sets := []struct {
+		tag  string
+		o    c08Opts
+		gmw  bool
+		file bool
+	}{
+		{"plain", c08Opts{}, false, false},
+		{"prune", c08Opts{Prune: true}, false, false},
+		{"prune+outs", c08Opts{Prune: true, AllOuts: true}, false, false},
+		{"outs-bristol", c08Opts{AllOuts: true, Format: "bristol"}, false, false},
+		{"print-only", c08Opts{Verbose: true, Diagnostics: true, ErrLoc: true, WarnNone: true}, false, false},
+		{"prune+print-only", c08Opts{Prune: true, Verbose: true, WarnNone: true}, false, false},
+		{"nocirc", c08Opts{NoCirc: true}, false, false},
+		{"mult12-unroll64", c08Opts{MultThreshold: 12, MaxLoopUnroll: 64}, false, false},
+		{"stream", c08Opts{ViaStream: true}, false, false},
+		{"streamfile+prune", c08Opts{ViaStream: true, Prune: true}, false, true},
+		{"gmw+prune+outs", c08Opts{Prune: true, AllOuts: true}, true, false},
+		{"file+outs", c08Opts{AllOuts: true}, false, true},
+	}
+	var out []*c08Prog
+	for bi, b := range bases {
+		for si, st := range sets {
+			// all option sets for two bases, the main ones for the others (quick-tier budget)
+			if bi != 0 && bi != 3 && si != 0 && si != 2 && si != 4 && si != 8 && si != 10 {
+				continue
+			}
+			q := *b
+			o := st.o
+			o.InputSizes, o.SidsFile = b.Opts.InputSizes, b.Opts.SidsFile
+			q.Opts = o
+			q.GMW = st.gmw
+			q.Name = b.Name + " [" + st.tag + "]"
+			if q.Kind == "" {
+				q.Kind = "options"
+			}
+			if st.file {
+				q.Kind += "-file" // written to a file and compiled with CompileFile / StreamFile
+			}
+			out = append(out, &q)
+		}
+	}
+	return out
 }
 
 // ---------------------------------------------------------------- histories: process-level state
@@ -1826,6 +2024,19 @@ func runC08(c *Ctx) error {
 		corpus = append(corpus, &c08Prog{Name: fmt.Sprintf("widths-directed-%02d", i), Src: src, Kind: "const-widths"})
 	}
 	corpus = append(corpus, c08InternPrograms()...)
+	for i, src := range c08ConstructPrograms {
+		corpus = append(corpus, &c08Prog{Name: fmt.Sprintf("construct-%02d", i), Src: src, Kind: "constructs"})
+	}
+	for i, q := range c08OptionPrograms() {
+		if strings.HasSuffix(q.Kind, "-file") {
+			f := filepath.Join(tmp, fmt.Sprintf("opt%03d.mpcl", i))
+			if err := os.WriteFile(f, []byte(q.Src), 0o644); err != nil {
+				return err
+			}
+			q.File, q.Src = f, ""
+		}
+		corpus = append(corpus, q)
+	}
 	nwidth := c.N(16, 80)
 	for i := 0; i < nwidth; i++ {
 		corpus = append(corpus, c08GenWidthProgram(grng.Fork(), i))
@@ -1843,7 +2054,7 @@ func runC08(c *Ctx) error {
 	kLow := c.N(6, 12)
 	kHigh := c.N(128, 400)
 	nChildren := c.N(2, 4)
-	budget := time.Duration(c.N(45, 600)) * time.Second
+	budget := time.Duration(c.N(150, 900)) * time.Second // guards against pathological slowness only: on a loaded machine a tight budget silently drops the file corpus
 
 	type progRes struct {
 		p         *c08Prog
@@ -1910,6 +2121,9 @@ func runC08(c *Ctx) error {
 				k = kLow
 			}
 		}
+		if p.Kind == "constructs" && first.Err == "" {
+			k = c.N(24, 60)
+		}
 		if (p.Kind == "const-widths" || p.Kind == "intern") && first.Err == "" {
 			// a 10% minority ordering is missed by 96 compilations with probability 4e-5
 			k = c.N(96, 200)
@@ -1948,6 +2162,9 @@ func runC08(c *Ctx) error {
 		outFile := filepath.Join(tmp, fmt.Sprintf("child%d.json", ch))
 		cmd := exec.Command(exe, "c08child", "fresh", specFile, outFile)
 		cmd.Env = os.Environ()
+		if ch%2 == 1 { // another runtime environment: one P, four times as many collections
+			cmd.Env = append(cmd.Env, "GOGC=25", "GOMAXPROCS=1")
+		}
 		cmd.Stdout, cmd.Stderr = nil, os.Stderr
 		if err := cmd.Run(); err != nil {
 			return fmt.Errorf("child process %d: %v", ch, err)
@@ -2021,6 +2238,53 @@ func runC08(c *Ctx) error {
 	c08RunHistories(c)
 	c08RunConcurrent(c)
 
+	// ---- option groups: print-only options and the streaming entry point
+	{
+		type gk struct{ base, opts string }
+		byGroup := map[gk]*progRes{}
+		for _, r := range results {
+			if !strings.HasPrefix(r.p.Name, "opt:") || r.p.Opts.ViaStream || r.p.Opts.hasPrintOnly() {
+				continue
+			}
+			ob, _ := json.Marshal(r.p.Opts)
+			byGroup[gk{strings.SplitN(r.p.Name, " [", 2)[0] + fmt.Sprint(r.p.GMW, r.p.File != ""), string(ob)}] = r
+		}
+		for _, r := range results {
+			if !strings.HasPrefix(r.p.Name, "opt:") {
+				continue
+			}
+			base := strings.SplitN(r.p.Name, " [", 2)[0]
+			o := r.p.Opts.printOnlyCleared()
+			isStream := o.ViaStream
+			o.ViaStream = false
+			if !isStream && !r.p.Opts.hasPrintOnly() {
+				continue
+			}
+			ob, _ := json.Marshal(o)
+			ref := byGroup[gk{base + fmt.Sprint(r.p.GMW, r.p.File != ""), string(ob)}]
+			if ref == nil {
+				ref = byGroup[gk{base + fmt.Sprint(r.p.GMW, false), string(ob)}]
+			}
+			if ref == nil || len(ref.fresh) == 0 || len(r.fresh) == 0 {
+				continue
+			}
+			a, b := ref.fresh[0], r.fresh[0]
+			c.Eval("option-group:"+r.p.Name, true)
+			if isStream {
+				if a.SSA != b.SSA && a.Err == "" && b.Err == "" {
+					c.Fail("c08:stream-door:listing-differs-from-Compile", fmt.Sprintf("%s: the SSA listing written by Compiler.Stream differs from the one written by Compile for the same source and parameters", r.p.Name),
+						map[string]interface{}{"program": r.p, "compile_program": ref.p, "ssa_diff_excerpt": c08DiffExcerpt(a.ssaText, b.ssaText)})
+				}
+			} else if a.key() != b.key() {
+				c.Fail("c08:option:print-only-changes-output", fmt.Sprintf("%s: Verbose/Diagnostics/MPCLCErrorLoc/Warn change the compiled output (compared with %s)", r.p.Name, ref.p.Name),
+					map[string]interface{}{"program": r.p, "reference": ref.p,
+						"with":             map[string]string{"circ": b.Circ, "ssa": b.SSA, "err": b.Err, "extra": b.Extra},
+						"without":          map[string]string{"circ": a.Circ, "ssa": a.SSA, "err": a.Err, "extra": a.Extra},
+						"ssa_diff_excerpt": c08DiffExcerpt(a.ssaText, b.ssaText)})
+			}
+		}
+	}
+
 	// ---- oracle and correspondence cases
 	paramsMutReported := map[string]bool{}
 	for ri, r := range results {
@@ -2064,6 +2328,8 @@ func runC08(c *Ctx) error {
 				what = "Bristol bytes differ"
 			case a.SSA != b.SSA:
 				what = "SSA listing differs"
+			case a.Extra != b.Extra:
+				what = "a further output differs: Params.CircOut/CircDotOut/CircSvgOut/SSADotOut, Marshal after AssignLevels, or the saved symbol-id file"
 			default:
 				what = "error text differs"
 			}
@@ -2093,6 +2359,9 @@ func runC08(c *Ctx) error {
 				if a.Circ != b.Circ {
 					key = "c08:same-constant-two-widths:circuit-differs"
 				}
+			}
+			if key == "c08:unexplained:output-differs" && a.Err == b.Err && a.Circ == b.Circ && a.Bristol == b.Bristol && a.SSA == b.SSA && a.Extra != b.Extra {
+				key = "c08:output-writers:differ"
 			}
 			if r.g != nil && r.g.clashes() > 0 && key == "c08:unexplained:output-differs" {
 				// two import paths share an alias: which one is parsed first decides the package the
